@@ -316,6 +316,83 @@ fn run_merged(source: &str, pool: &[usize]) -> Obs {
     }
 }
 
+/// Static type expression of each listed value (for a test function's parameter type).
+fn type_expr_of(value: &str) -> &'static str {
+    match value {
+        "0" => "'int",
+        "0x01" => "'bin",
+        "[]" => "[]",
+        "Ok" => "Ok",
+        "A" => "A",
+        "A[1]" => "A['int]",
+        "A[0x01]" => "A['bin]",
+        "B[1]" => "B['int]",
+        "[1]" => "['int]",
+        "[1, 0x01]" => "['int, 'bin]",
+        "[x: 1]" => "[x: 'int]",
+        "[x: 1, y: 0x01]" => "[x: 'int, y: 'bin]",
+        "[y: 0x01, x: 1]" => "[y: 'bin, x: 'int]",
+        "A[x: 1]" => "A[x: 'int]",
+        "A[x: 0x01]" => "A[x: 'bin]",
+        "Nil" | "Cons[1, Nil]" | "Cons[1, Cons[2, Nil]]" => "'l",
+        "Cons[0x01, Nil]" => "Cons['bin, Nil]",
+        "Cons[1, A]" => "Cons['int, A]",
+        "A[[1]]" => "A[['int]]",
+        "[A[1], B[1]]" => "[A['int], B['int]]",
+        "#'int { $ }" | "#'int { [~, 1] __integer_subtract__ }" => "(#'int -> 'int)",
+        "#'bin { $ }" => "(#'bin -> 'bin)",
+        "&__integer_subtract__" => "(#['int, 'int] -> 'int)",
+        _ => "[]",
+    }
+}
+
+/// Function values that only the late-value configuration uses (the host membership model has
+/// no function types; there the oracle is differential).
+const LATE_FUNCTION_VALUES: &[&str] = &["#'int { [~, 1] __integer_subtract__ }", "#'bin { $ }", "&__integer_subtract__"];
+const LATE_FUNCTION_TYPES: &[&str] = &["(#'int -> 'int)", "(#'bin -> 'bin)", "(#['int, 'int] -> 'int)"];
+
+/// "Late value": the test lives in a function defined (and used once) on an earlier REPL line —
+/// an earlier merge into the environment — and the value is built on a later line, which adds
+/// new functions / tuple shapes / builtins to the environment after the test was installed. The
+/// verdict must equal the verdict of the same lines compiled as one program.
+fn late_value_sources(value: &str, ty: &str) -> (Vec<String>, String) {
+    let tv = type_expr_of(value);
+    let lines = vec![
+        PRELUDE.trim_end().to_string(),
+        format!("test = #({} | {} | Q9) {{ ={} => Ok | [] }}, Q9 test", ty, tv, ty),
+        format!("x = {}, &x test", value),
+    ];
+    let one = format!("{}test = #({} | {} | Q9) {{ ={} => Ok | [] }}, Q9 test =q,\nx = {}, &x test", PRELUDE, ty, tv, ty, value);
+    (lines, one)
+}
+
+fn run_late_value(value: &str, ty: &str) -> (Obs, Obs) {
+    crate::sim::system::install_panic_recorder();
+    let (lines, one) = late_value_sources(value, ty);
+    let direct = match std::panic::catch_unwind(|| qcompile::compile(&one, &qcompile::core_builtins())) {
+        Ok(Ok(u)) => run_direct(&u, false),
+        _ => Obs::Rejected,
+    };
+    if direct == Obs::Rejected {
+        return (direct, Obs::Rejected);
+    }
+    let Ok(mut s) = sim::session::Session::new(1, Default::default()) else {
+        return (direct, Obs::Other("session".into()));
+    };
+    let mut last = Obs::Other("no line".into());
+    for l in &lines {
+        last = match s.eval(l) {
+            sim::session::Eval::Value(v, _) => verdict_of(&v),
+            sim::session::Eval::NoCode => Obs::Other("no code".into()),
+            sim::session::Eval::ParseError(e) | sim::session::Eval::CompileError(e) => Obs::Other(format!("line rejected: {}", e)),
+            sim::session::Eval::RuntimeError(e) => Obs::Other(format!("error {}", e)),
+            sim::session::Eval::Broken(e) => Obs::Other(format!("broken {}", e)),
+        };
+    }
+    s.close();
+    (direct, last)
+}
+
 struct Outcome {
     case: Case,
     direct: Obs,
@@ -490,8 +567,56 @@ pub fn run(tier: Tier) -> Result<Report, String> {
             }
         }
     }
+    // late-value configuration (see run_late_value)
+    let mut late_pairs: Vec<(String, String)> = vec![];
+    for (vs, _) in values() {
+        for (ts, _) in types() {
+            late_pairs.push((vs.to_string(), ts.to_string()));
+        }
+        for ts in LATE_FUNCTION_TYPES {
+            late_pairs.push((vs.to_string(), ts.to_string()));
+        }
+    }
+    for vs in LATE_FUNCTION_VALUES {
+        for (ts, _) in types() {
+            late_pairs.push((vs.to_string(), ts.to_string()));
+        }
+        for ts in LATE_FUNCTION_TYPES {
+            late_pairs.push((vs.to_string(), ts.to_string()));
+        }
+    }
+    late_pairs.sort();
+    late_pairs.dedup();
+    let late: Vec<((String, String), Option<(Obs, Obs)>)> = late_pairs
+        .par_iter()
+        .map(|(v, t)| ((v.clone(), t.clone()), if budget.exhausted() { None } else { Some(run_late_value(v, t)) }))
+        .collect();
+    let mut late_run = 0u64;
+    let mut late_rejected = 0u64;
+    let mut late_verdicts = 0u64;
+    for ((v, t), r) in &late {
+        let Some((direct, sess)) = r else { continue };
+        late_run += 1;
+        if *direct == Obs::Rejected {
+            late_rejected += 1;
+            continue;
+        }
+        if matches!(direct, Obs::Accept | Obs::Reject) {
+            late_verdicts += 1;
+        }
+        if direct != sess {
+            let sig = format!("late-value-differs|{}|{}", v, t);
+            let (lines, one) = late_value_sources(v, t);
+            violations.entry(sig.clone()).or_insert(Violation {
+                signature: sig,
+                summary: format!("test `={}` installed on an earlier REPL line, value {} built on a later line: the session yields {:?}, the same lines as one program yield {:?}", t, v, sess, direct),
+                replay: json!({"engine": "c08", "kind": "late-value", "value": v, "type": t, "lines": lines, "one_program": one}),
+            });
+        }
+    }
     let coverage = json!({
-        "evaluations": covered as u64 + recv_cases,
+        "late_value_cases": late_run, "late_value_rejected_by_compiler": late_rejected, "late_value_with_verdict": late_verdicts,
+        "evaluations": covered as u64 + recv_cases + late_run,
         "distinct_nontrivial": nontrivial,
         "rule": "every (value from 23 literal values, how it reaches the test: exact type / widened by a never-taken alternative (2 ways), pattern type from 26 type expressions incl. unions, partials, named/unnamed tuples, the recursive list alias, a function type, test form from 6: type pattern, as-pattern, typed tuple field, partial field, block branch, function dispatch) as its own program, run directly, tree-shaken, and (stride) as the last line of a session that first merged pool programs; plus 30 typed-receive programs. Non-trivial = accepted by the compiler and yielding a verdict.",
         "exhaustive": covered == all.len(),
@@ -554,6 +679,13 @@ fn run_process_program(src: &str) -> String {
 }
 
 pub fn replay(replay: &J) -> Result<bool, String> {
+    if replay["kind"].as_str() == Some("late-value") {
+        let v = replay["value"].as_str().ok_or("no value")?;
+        let t = replay["type"].as_str().ok_or("no type")?;
+        let (direct, sess) = run_late_value(v, t);
+        println!("  lines: {:?}\n  observed: session {:?}, one program {:?}", late_value_sources(v, t).0, sess, direct);
+        return Ok(direct != Obs::Rejected && direct != sess);
+    }
     let src = replay["source"].as_str().ok_or("no source")?;
     println!("  source:\n{}", src);
     if let Some(want) = replay["want"].as_str() {
